@@ -258,7 +258,11 @@ Decls  == <<"main", "lib", "deep">>                 \* main imports lib and deep
 Sites  == <<"main", "lib">>
 Vias   == <<"direct", "helper", "foreign">>         \* API called at the site / by a helper of the site's
                                                     \* package / by an exported helper of a dependency
-Conss  == <<"value", "ptr", "slice", "variadic", "field", "iface", "array", "map">>
+Conss  == <<"value", "ptr", "slice", "variadic", "field", "iface-any", "iface-method", "array", "map">>
+                                                    \* field: the value travels in a field of a struct that a helper
+                                                    \* fills from its parameter and hands to the reflecting function;
+                                                    \* iface-any / iface-method: held in a variable of type any /
+                                                    \* of an interface type with a method before it is passed
 TShapes == <<"plain", "nested", "embedded", "ptrfield", "slicefield", "mapfield", "arrayfield",
              "anon", "generic", "alias", "defined", "embedded-ptr", "nested2">>
 Apis   == <<"typeof", "valueof", "marshal", "unmarshal">>
@@ -270,8 +274,8 @@ Imports(p, q) == p = q \/ (p = "main" /\ q \in {"lib", "deep"}) \/ (p = "lib" /\
 
 Applicable(c) ==
   /\ Imports(c.site, c.decl)                                  \* the site must be able to name the type
-  /\ (c.cons = "variadic" => c.via # "direct")                \* a variadic flow needs a function with ...any
-  /\ (c.api = "unmarshal" => c.cons \in {"value", "ptr", "field", "iface"})   \* needs a pointer to one value
+  /\ (c.cons \in {"variadic", "field"} => c.via # "direct")   \* these flows need a helper function
+  /\ (c.api = "unmarshal" => c.cons \in {"value", "ptr", "iface-any"})       \* needs a pointer to one value
   /\ (c.tshape = "defined" => c.api \in {"typeof", "valueof"})  \* a defined int has no JSON keys
 
 NonDefault(c) ==
